@@ -219,7 +219,7 @@ func classify(f map[string]int) (bool, string, []string) {
 		}
 	}
 	for k := range f {
-		if strings.HasPrefix(k, "jobs-") {
+		if strings.HasPrefix(k, "jobs-") || k == "replica-restarted" || k == "restart-not-possible" || k == "replica-with-mempool-traffic" {
 			classes = append(classes, k)
 		}
 	}
@@ -231,7 +231,7 @@ func classify(f map[string]int) (bool, string, []string) {
 func TestC01(t *testing.T) {
 	h := run.Start(t, "C01")
 	defer h.Finish()
-	h.SetRule("generated genesis configuration x block history (all transaction families, 9 focus profiles, block environment with absentees / byzantine evidence / time gaps, job-store perturbations on witnesses) executed on 3 replicas with different roles (validator+witness, validator, non-validator) and keys; non-trivial = at least 10 blocks and at least one block where a block-level hook or several transactions wrote state for 2+ subjects (2+ validators rewarded, 2+ validator updates, a removal, a matured undelegation, 2+ successful txs); distinct by trace hash")
+	h.SetRule("generated genesis configuration x block history (all transaction families, 9 focus profiles, block environment with absentees / byzantine evidence / time gaps, job-store perturbations on witnesses) executed on 3 replicas with different roles (validator+witness, validator, non-validator) and keys, one of which answers node-local mempool checks around every block and one of which is occasionally stopped and restarted on its data directory between two blocks; non-trivial = at least 10 blocks and at least one block where a block-level hook or several transactions wrote state for 2+ subjects (2+ validators rewarded, 2+ validator updates, a removal, a matured undelegation, 2+ successful txs); distinct by trace hash")
 	maxBlocks := h.Scale(35, 70)
 	caseN := 0
 	rapid.Check(t, func(rt *rapid.T) {
